@@ -226,7 +226,9 @@ func (c06Engine) Gen(job *Job) *Case {
 		competingOnly = r.Chance(3, 4)
 		c.Project = genMultiDefect(r.Fork())
 		competingOnly = false
-		if r.Chance(1, 4) {
+		if r.Chance(2, 5) {
+			// one defect only: nothing masks it, and a message that lists or suggests names
+			// (candidates taken from a map) shows its order dependence on a single error
 			c.Project = genSingleDefect(r.Fork())
 		}
 	case k < 85:
